@@ -293,6 +293,10 @@ pub struct World {
     pub step: usize,
     /// items the harness itself put into some storage as "other files" (not blocks, not packs)
     pub foreign: BTreeSet<String>,
+    /// set once a commit has been redone verbatim from the past: whether the redo reproduces the existing
+    /// block byte for byte depends on hash-map order inside the block (two staged revisions of one
+    /// object), so the number of blocks is no longer comparable across runs; states still are
+    pub graph_unstable: bool,
 }
 
 impl Profile {
@@ -415,7 +419,7 @@ impl World {
                 redo: None,
             });
         }
-        World { reps, prof, r, res, case, revtab: BTreeMap::new(), key_hash: BTreeMap::new(), step: 0, foreign: BTreeSet::new() }
+        World { reps, prof, r, res, case, revtab: BTreeMap::new(), key_hash: BTreeMap::new(), step: 0, foreign: BTreeSet::new(), graph_unstable: false }
     }
 
     fn t(&mut self, s: String) {
@@ -788,6 +792,7 @@ impl World {
                 self.res.opkinds.push('R');
                 progress(&format!("CALL case={} step={} r{} redo", self.case, s, i));
                 self.res.feat_add("redo_from_past", 1);
+                self.graph_unstable = true;
                 self.do_update(i, d);
                 if !self.reps[i].dead {
                     let o = observe(&self.reps[i].m);
@@ -799,7 +804,8 @@ impl World {
                     let after = observe(&self.reps[i].m);
                     self.audit(i, &after);
                     let stems: Vec<String> = self.reps[i].prev_files.keys().filter_map(|k| k.strip_suffix(".delta").map(|s| s.to_string())).collect();
-                    self.res.digests.push(format!("{}:{}:{}", i, after.state_digest(), obs::graph_digest(&self.reps[i].m, &stems)));
+                    let gd = if self.graph_unstable { "-".to_string() } else { obs::graph_digest(&self.reps[i].m, &stems) };
+                    self.res.digests.push(format!("{}:{}:{}", i, after.state_digest(), gd));
                     self.reps[i].cur = after;
                 }
                 continue;
@@ -824,7 +830,8 @@ impl World {
                     }
                     self.audit(i, &after);
                     let stems: Vec<String> = self.reps[i].prev_files.keys().filter_map(|k| k.strip_suffix(".delta").map(|s| s.to_string())).collect();
-                    self.res.digests.push(format!("{}:{}:{}", i, after.state_digest(), obs::graph_digest(&self.reps[i].m, &stems)));
+                    let gd = if self.graph_unstable { "-".to_string() } else { obs::graph_digest(&self.reps[i].m, &stems) };
+                    self.res.digests.push(format!("{}:{}:{}", i, after.state_digest(), gd));
                     self.reps[i].cur = after;
                 }
             }
